@@ -31,21 +31,22 @@ def _catalogue():
     return _CAT
 
 
-def _probe(i):
-    """run catalogue entry i once on a fresh world to learn its arguments and result components"""
+def _probe(iv):
+    """run catalogue entry i (argument variant v) once on a fresh world to learn its arguments and result components"""
+    i, variant = iv
     qual, fn, owner = _catalogue()[i]
     cls = A.classify(qual, owner)
     if cls == 'inplace':
-        return i, {'status': 'inplace'}
+        return iv, {'status': 'inplace'}
     w = A.World(7)
     try:
-        res, used = A.call(w, qual, fn, owner)
+        res, used = A.call(w, qual, fn, owner, variant)
     except A.Uncovered as u:
-        return i, {'status': 'uncovered', 'why': str(u)}
+        return iv, {'status': 'uncovered', 'why': str(u)}
     except Exception as ex:
-        return i, {'status': 'uncovered', 'why': f'factory arguments rejected: {type(ex).__name__}: {str(ex)[:120]}'}
+        return iv, {'status': 'uncovered', 'why': f'factory arguments rejected: {type(ex).__name__}: {str(ex)[:120]}'}
     comps = A.components(res)
-    return i, {'status': 'ok', 'class': cls, 'args': sorted(set(u for u in used if u in w.t)),
+    return iv, {'status': 'ok', 'class': cls, 'args': sorted(set(u for u in used if u in w.t)),
                'comps': [A.comp_kind(c) for c in comps]}
 
 
@@ -55,13 +56,13 @@ def _code(table, h):
 
 def _experiment(job):
     """perform one schedule; returns a trace record or a skip reason"""
-    cat_index, sched, seed = job
+    (cat_index, variant), sched, seed = job
     qual, fn, owner = _catalogue()[cat_index]
     w = A.World(seed)
     table = {}
     before = {k: _code(table, v) for k, v in w.fingerprints().items()}
     try:
-        res, used = A.call(w, qual, fn, owner)
+        res, used = A.call(w, qual, fn, owner, variant)
     except Exception as ex:
         return {'skip': f'raises on replay: {type(ex).__name__}'}
     comps = A.components(res)
@@ -89,7 +90,7 @@ def _experiment(job):
             return {'skip': 'mutation left the target unchanged (nothing to observe)'}
         events.append({'op': 'mutate', 'side': sched['side'], 'target': sched['target'], 'comp': sched['comp'],
                        'mut': sched['mut'], 'fps': fps2, 'rfps': rf2})
-    return {'trace': {'p': sched['p'], 'before': before, 'events': events}, 'name': qual}
+    return {'trace': {'p': sched['p'], 'before': before, 'events': events}, 'name': qual, 'variant': variant}
 
 
 def run(ctx):
@@ -102,18 +103,25 @@ def run(ctx):
                        'are checked for not modifying their object but not for array-write independence',
                        'callables the argument factories cannot call are listed under coverage.uncovered']
     cat = _catalogue()
+    ivs = [(i, v) for i in range(len(cat)) for v in range(A.N_VARIANTS)]
     with mp.Pool(16) as pool:
-        probes = dict(pool.map(_probe, range(len(cat)), chunksize=4))
+        probes = dict(pool.map(_probe, ivs, chunksize=4))
     entries, index_of = [], []
     uncovered = {}
+    exercised = set()
     for i, (qual, fn, owner) in enumerate(cat):
-        pr = probes[i]
-        if pr['status'] == 'ok':
-            entries.append({'name': qual, 'class': pr['class'], 'args': pr['args'], 'comps': pr['comps']})
-            index_of.append(i)
-        elif pr['status'] == 'uncovered':
-            uncovered[qual] = pr['why']
-    if len(entries) < 60:
+        sigs = set()
+        for v in range(A.N_VARIANTS):
+            pr = probes[(i, v)]
+            if pr['status'] == 'ok':
+                exercised.add(qual)
+                entries.append({'name': f'{qual}#{v}', 'class': pr['class'], 'args': pr['args'], 'comps': pr['comps']})
+                index_of.append((i, v))
+            elif pr['status'] == 'uncovered' and v == 0:
+                uncovered[qual] = pr['why']
+        if qual in exercised:
+            uncovered.pop(qual, None)
+    if len(exercised) < 60:
         raise MachineryError(f'only {len(entries)} callables could be exercised - factories broken?')
     w = A.World(7)
     tracked = [{'name': k, 'kind': A.comp_kind(v) if not isinstance(v, (list, dict)) else 'other'} for k, v in w.t.items()]
@@ -166,7 +174,8 @@ def run(ctx):
     ctx.sample({'trace': traces[len(traces) // 2]})
     ctx.exhaustive = True
     ctx.extra['callables_discovered'] = len(cat)
-    ctx.extra['callables_exercised'] = len(entries)
+    ctx.extra['callables_exercised'] = len(exercised)
+    ctx.extra['catalogue_entries'] = len(entries)
     ctx.extra['uncovered'] = uncovered
     ctx.extra['schedules'] = len(scheds)
 E2E = None
